@@ -141,6 +141,9 @@ pub fn s_hist(kind: &str, age_s: u64, two_parts: bool) -> WCfg {
     c.max_crashes = 1;
     c.crash_lose_responses = true;
     c.write_faults = true;
+    // a block may be mined while the node is down: replayed HTLCs then come with a lower relative expiry
+    c.heights = vec![c.start_height + 1];
+    c.max_height_events = 1;
     c
 }
 
@@ -233,6 +236,18 @@ pub fn s_amt() -> Vec<WCfg> {
                     out.push(c);
                 }
             }
+        }
+        // the stored state is read slowly while several MPP timeouts pass, then the second part arrives
+        if pi == 0 {
+            let mut c = mk("fixed/slow-store");
+            let inv = c.add_invoice(&InvoiceSpec::fixed(1, amount));
+            add_htlc_full(&mut c, "q1", inv, 500_000, Some(1_005_000), None);
+            add_htlc_full(&mut c, "q2", inv, 505_000, Some(1_005_000), None);
+            c.mpp_timeout_ms = 250;
+            c.advance_menu_ms = vec![250, 1_100, 2_500];
+            c.max_advances = 3;
+            c.read_faults = true;
+            out.push(c);
         }
         // the onion's forward_msat is sender-controlled and need not equal what the HTLC really carries
         for (vn, amt, fwd) in [("fwd-exceeds-amount", 1_000u64, 502_500u64), ("fwd-below-amount", 502_500, 1_000)] {
@@ -527,6 +542,17 @@ pub fn s_many() -> Vec<WCfg> {
         c.add_htlc("m4", 0, 1, 1_005_000);
         c.max_parts = 1;
         c.write_faults = true;
+        out.push(c);
+    }
+    {
+        // the stored state is read slowly (stalled or failing RPC) while time passes
+        let mut c = base("S-many/slow-store");
+        c.add_htlc("s1", 0, 500_000, 1_005_000);
+        c.add_htlc("s2", 0, 505_000, 1_005_000);
+        c.advance_menu_ms = vec![60_000, 60_002, 2];
+        c.max_advances = 3;
+        c.max_parts = 1;
+        c.read_faults = true;
         out.push(c);
     }
     {
